@@ -180,6 +180,22 @@ func measure(fn func()) uint64 {
 	return b.TotalAlloc - a.TotalAlloc
 }
 
+// allocCounter reads the cumulative bytes allocated on the heap from runtime/metrics: cheap
+// (no stop-the-world), good enough to notice a disproportionate allocation, which is then
+// measured again with measure.
+var allocSample = []metrics.Sample{{Name: "/gc/heap/allocs:bytes"}}
+var allocMu sync.Mutex
+
+func allocCounter() uint64 {
+	allocMu.Lock()
+	defer allocMu.Unlock()
+	metrics.Read(allocSample)
+	if allocSample[0].Value.Kind() != metrics.KindUint64 {
+		return 0
+	}
+	return allocSample[0].Value.Uint64()
+}
+
 // allocSite re-runs fn and names the library function that allocated most: the heap
 // profile samples every allocation larger than the sampling interval, so the site of
 // a disproportionate make() is in it.
